@@ -509,6 +509,9 @@ func NewStores(variant int) *Stores {
 	// talk about keys, queries and index paths about symbol names
 	p.idxNick = p.AddNullableUniqueIndex(p.AddSymbolWithKey("alias", ast.NodeTypeString, "nick"))
 	p.idxRoles = p.AddSetIndex(p.AddPublicSetSymbol("roles", ast.NodeTypeString))
+	// application-supplied symbols: one symbol object per store, shared by every scan
+	p.AddEntitySymbol(boltz.NewBoolFuncSymbol(p, "oddId", extOdd))
+	p.AddEntitySymbol(boltz.NewStringFuncSymbol(p, "idTail", extTail))
 	symDept := p.AddFkSymbol("dept", s.Depts)
 	p.AddFkIndex(symDept, d.symMembers) // not nullable; restrict on delete of the dept
 	symMentor := p.AddFkSymbol("mentor", p)
